@@ -672,3 +672,88 @@ pub proof fn lemma_mm_endpoints(f: Seq<GTree>, lo: int, hi: int)
         }
     }
 }
+
+// ---- pair indices of mm_spec are consistent ----
+/// the segment tm placed at index cur is self-consistent: every pair index points into the segment, to a different
+/// marker, whose pair index points back
+pub open spec fn seg_pairs_ok(tm: Seq<RemoveMarker>, cur: int) -> bool {
+    forall|k: int| 0 <= k < tm.len() ==> ((#[trigger] tm[k]).1 matches Some(j) ==>
+        cur <= j < cur + tm.len() && j != cur + k && tm[j - cur].1 == Some((cur + k) as usize))
+}
+pub proof fn lemma_tree_seg_pairs(t: GTree, cm: Seq<RemoveMarker>, cur: int)
+    requires pairs_consistent(cm), 0 <= cur, cur + cm.len() + 2 <= usize::MAX,
+    ensures seg_pairs_ok(tree_markers(t, cm, cur), cur),
+{
+    let tm = tree_markers(t, cm, cur);
+    let cr = marker_ranges(cm);
+    let n = cm.len() as int;
+    lemma_mcm_bounds(cr, t.range.0);
+    match t.range.1 {
+        Some(tail) => {
+            lemma_mcm_bounds(cr.reverse(), tail);
+            let a = mcm(cr, t.range.0);
+            let b = mcm(cr.reverse(), tail);
+            let sc = a.0; let ec = n - b.0;
+            if sc > ec {
+                assert(tm =~= seq![(Range { start: a.1.start, end: b.1.end }, None::<usize>)]);
+            } else {
+                let mid = rebased(cm, sc, ec, cur);
+                let first = (a.1, Some((cur + (ec - sc) + 1) as usize));
+                let last = (b.1, Some(cur as usize));
+                assert(tm =~= seq![first] + mid + seq![last]);
+                let m = tm.len() as int;
+                assert(m == ec - sc + 2);
+                assert(tm[0] == first && tm[m - 1] == last);
+                assert forall|k: int| 0 <= k < m implies ((#[trigger] tm[k]).1 matches Some(j) ==>
+                    cur <= j < cur + m && j != cur + k && tm[j - cur].1 == Some((cur + k) as usize)) by {
+                    if 0 < k < m - 1 {
+                        assert(tm[k] == mid[k - 1]);
+                        let c = cm[sc + (k - 1)];
+                        if tm[k].1 is Some {
+                            let p = c.1->0 as int;
+                            assert(sc <= p < ec);
+                            // consistency of the child list
+                            assert(cm[p].1 == Some((sc + (k - 1)) as usize) && p != sc + (k - 1));
+                            let j = p - sc + cur + 1;
+                            assert(tm[j - cur] == mid[p - sc]);
+                        }
+                    }
+                }
+            }
+        },
+        None => { assert(tm =~= seq![(a_of(cr, t), None::<usize>)]) by { assert(tm.len() == 1); } },
+    }
+}
+pub open spec fn a_of(cr: Seq<Range<usize>>, t: GTree) -> Range<usize> { mcm(cr, t.range.0).1 }
+
+pub proof fn lemma_mm_pairs_sized(f: Seq<GTree>)
+    requires 2 * forest_size(f) < usize::MAX,
+    ensures pairs_consistent(mm_spec(f)),
+    decreases f,
+{
+    if f.len() > 0 {
+        let g = f.drop_last();
+        let t = f.last();
+        lemma_mm_pairs_sized(g);
+        lemma_mm_pairs_sized(t.children);
+        lemma_mm_len(g);
+        lemma_mm_len(t.children);
+        let prev = mm_spec(g);
+        let cm = mm_spec(t.children);
+        let cur = prev.len() as int;
+        let tm = tree_markers(t, cm, cur);
+        lemma_tree_seg_pairs(t, cm, cur);
+        let out = prev + tm;
+        assert(mm_spec(f) == out);
+        assert forall|i: int| 0 <= i < out.len() implies ((#[trigger] out[i]).1 matches Some(j) ==> j < out.len() && j != i && out[j as int].1 == Some(i as usize)) by {
+            if i < cur {
+                assert(out[i] == prev[i]);
+                if prev[i].1 is Some { let j = prev[i].1->0 as int; assert(out[j] == prev[j]); }
+            } else {
+                let k = i - cur;
+                assert(out[i] == tm[k]);
+                if tm[k].1 is Some { let j = tm[k].1->0 as int; assert(out[j] == tm[j - cur]); }
+            }
+        }
+    }
+}
